@@ -145,7 +145,7 @@ def main():
                     res = [0]
                 elif t == "extend":
                     p = prop(NAMES[op[1]])
-                    p.extend_values([dec(v) for v in op[2]])
+                    p.extend_values(dec(op[2][0]) if op[3] == "scalar" else [dec(v) for v in op[2]])
                     res = [0]
                 elif t == "dget":
                     r = sec[NAMES[op[1]]]
